@@ -34,7 +34,7 @@ META = dict(
         'exclude geo for <= 2): parameter settings none, tsize, csize, '
         'gratio, tsize+csize, gratio+csize symbolic; 4 admitted geos: none, '
         'tsize, gratio; recount histories on 2..3 geos',
-        thorough='1..6 admitted geos, plus tsize+csize+gratio'),
+        thorough='1..4 admitted geos with every setting incl. tsize+csize+gratio; 5 admitted geos with single settings'),
     outside='more than 6 admitted geos; the response panel is a fixed flat '
     'family (the count does not depend on it)',
     stubs=['pandas.core.nanops._ensure_numeric pass-through'],
@@ -244,7 +244,7 @@ def _firsts(n):
 
 def jobs(tier, seed):
   out = []
-  nmax = 4 if tier == 'quick' else 6
+  nmax = 4 if tier == 'quick' else 5
   syms = [[], ['tsize'], ['csize'], ['gratio'], ['tsize', 'csize'],
           ['gratio', 'csize']]
   if tier == 'thorough':
@@ -254,7 +254,7 @@ def jobs(tier, seed):
       if tier == 'quick' and n == 4 and sym not in ([], ['gratio'],
                                                     ['tsize']):
         continue          # the other settings on 4 admitted geos: thorough
-      if tier == 'thorough' and n >= 6 and len(sym) > 2:
+      if tier == 'thorough' and n >= 5 and len(sym) > 1:
         continue
       firsts = _firsts(n) if n >= 3 else [None]
       for f in firsts:
